@@ -19,5 +19,5 @@ var wcCensus = map[string]string{
 	"oshape|tensor.(*Dense).transposeIndex":                "transposition itself (rule T6)",
 	"ostrides|tensor.(*Dense).transposeIndex":              "transposition itself (rule T6)",
 	"oshape|tensor.(StdEng).MatVecMul":                     "BLAS gateway: the lazy transpose becomes the trans flag (rule LD)",
-	"ostrides|tensor.(StdEng).denseRepeat":                 "block sizes of the raw repeat; the missing layout test is finding 32",
+	"ostrides|tensor.(StdEng).denseRepeat":                 "block sizes of the raw repeat, taken after views / lazy transposes were materialised",
 }
